@@ -193,21 +193,28 @@ QueryOps == {"len", "index", "count_ones", "count_zeros", "num_ones", "num_zeros
 
 (***************************************************************************)
 (* C11: documented space overhead, in bytes, of each layer over a vector   *)
-(* of  n  bits: the nominal fraction of n bits plus an additive constant.  *)
-(* Frac(n, a, b) bounds  a/b * n  bits from above, in bytes, within  a     *)
-(* bytes.  The constants are those of the code's allocation granularity:   *)
+(* of  n  bits: the nominal fraction of n bits plus an additive constant    *)
+(* of "a few words or blocks".  Frac(n, a, b) bounds  a/b * n  bits from    *)
+(* above, in bytes, within  a  bytes.  What the code allocates beyond the   *)
+(* nominal fraction (MC_RankSel!SpaceOK checks these formulas against the   *)
+(* bounds for every small length):                                          *)
 (*   Rank9     16-byte counter pair per 512 bits: one for rounding up, one *)
 (*             sentinel holding the total, 16 for the Box<[..]> itself     *)
+(*             = 48 bytes; admitted: 4 counter pairs = 64                  *)
 (*   RankSmall one counter block of 12/8/8/8/16 bytes for rounding up, one *)
 (*             8-byte upper count per 2^32 bits (lengths here are < 2^32), *)
 (*             two boxed slices (2 * 16) and the usize num_ones            *)
+(*             = block + 48; admitted: 2 blocks + 64                       *)
 (*   Select9   one inventory word per 512 ones plus a sentinel, one        *)
 (*             subinventory word per 4 words: 8 + 8 + 8 for rounding and   *)
 (*             sentinel, two boxed slices and two usize fields (48)        *)
-(*   AddNumBits exactly one usize.                                         *)
-(* The selection structures of the "adapt"/"small" families have no        *)
-(* documented bound: a stack containing one is only required to be no      *)
-(* smaller than the vector it wraps.                                       *)
+(*             = 72; admitted: 16 words = 128                              *)
+(*   AddNumBits one usize; admitted: two.                                  *)
+(* (The admitted constants leave room for a different container header or  *)
+(* one more sentinel; anything proportional to n is caught.)  The          *)
+(* selection structures of the "adapt"/"small" families have no documented *)
+(* bound: a stack containing one is only required to be no smaller than    *)
+(* the vector it wraps.                                                    *)
 (***************************************************************************)
 Frac(n, a, b) == ((n \div (8 * b)) + 1) * a
 
@@ -217,10 +224,10 @@ RsNum(k)        == IF k = 0 THEN 3 ELSE 1          \* 3/16, 1/8, 1/16, 1/32, 1/6
 
 HasBound(layer) == layer.t \in {"anb", "r9", "rs", "s9"}
 LayerBound(layer, n) ==
-    CASE layer.t = "anb" -> 8
-      [] layer.t = "r9"  -> Frac(n, 1, 4) + 48
-      [] layer.t = "rs"  -> Frac(n, RsNum(layer.k), RsDen(layer.k)) + RsBlockBytes(layer.k) + 8 + 32 + 8
-      [] layer.t = "s9"  -> Frac(n, 3, 8) + 72
+    CASE layer.t = "anb" -> 16
+      [] layer.t = "r9"  -> Frac(n, 1, 4) + 64
+      [] layer.t = "rs"  -> Frac(n, RsNum(layer.k), RsDen(layer.k)) + 2 * RsBlockBytes(layer.k) + 64
+      [] layer.t = "s9"  -> Frac(n, 3, 8) + 128
 
 RECURSIVE StackBound(_, _)
 StackBound(stack, n) ==
@@ -251,8 +258,10 @@ QueryWhy(v, stack, loaded, ev) ==
     LET o == ev.op
         m == Ones(v)
     IN
-    IF TraitOf(o) \notin CapsOf(stack, loaded)
-    THEN (IF ev.out = "na" THEN "ok" ELSE "outcome-na")
+    \* an operation of a trait the stack implements must exist; one the tables above do not
+    \* list may exist (a further impl is no violation), but then it is held to the same answers
+    IF ev.out = "na"
+    THEN (IF TraitOf(o) \notin CapsOf(stack, loaded) THEN "ok" ELSE "outcome-na")
     ELSE IF o = "index" /\ \E k \in 1 .. Len(ev.ps) : Arg(ev.ps[k]) >= v.len
     THEN (IF ev.out = "panic" THEN "ok" ELSE "outcome-index-oob")
     ELSE IF ev.out # "ret" THEN "outcome"
